@@ -412,19 +412,27 @@ func clientSideCase(c *h.Case, k int) {
 	defer e.relay.Close()
 	var err error
 
+	// loginFailExit speaks about the first login only: when that one is not scripted to fail, every other case
+	// leaves the option at its default (true), which must not matter for any later re-login
+	defaultFailExit := k%2 == 1 && !strings.HasPrefix(phases[0], "refused-at-start:")
+	c.Data["login_fail_exit_default"] = defaultFailExit
+	failExitLine := "loginFailExit = false\n"
+	if defaultFailExit {
+		failExitLine = ""
+		run.Count("cases_with_default_loginFailExit", 1)
+	}
 	var sb strings.Builder
 	fmt.Fprintf(&sb, `
 serverAddr = "127.0.0.1"
 serverPort = %d
 user = "%s"
 auth.token = "%s"
-loginFailExit = false
-transport.tls.enable = false
+%stransport.tls.enable = false
 transport.tcpMux = %v
 transport.poolCount = 0
 transport.heartbeatInterval = %d
 transport.heartbeatTimeout = %d
-`, ports[1], user, token, mux, pair.I, pair.T)
+`, ports[1], user, token, failExitLine, mux, pair.I, pair.T)
 	for i := 0; i < n; i++ {
 		name := fmt.Sprintf("p%03d", i)
 		e.names = append(e.names, user+"."+name)
@@ -528,8 +536,20 @@ func (e *bEnv) healthy(after int64) bool {
 // awaitRecovery: from `heal` on the server is reachable and benign; a session logged in at or after `after`
 // must own every configured proxy within the recovery grace.
 func (e *bEnv) awaitRecovery(kind string, after, heal int64) bool {
-	ok := waitUntil(time.Duration(heal-h.Now())+recoveryGrace, func() bool { return e.healthy(after) })
+	gaveUp := false
+	ok := waitUntil(time.Duration(heal-h.Now())+recoveryGrace, func() bool {
+		if clientGone(e.cli) {
+			gaveUp = true
+			return true
+		}
+		return e.healthy(after)
+	})
 	now := h.Now()
+	if gaveUp {
+		e.c.Violation("client-gave-up-after-failed-relogin", "mux=%v, %d proxies, loginFailExit left at its default=%v, fault %s: the frpc service has ended (Service.Run returned) %.1f s after the scripted server was reachable and benign again, although its first login had succeeded: nothing will ever reconnect",
+			e.mux, len(e.names), e.c.Data["login_fail_exit_default"], kind, secs(now-heal))
+		return false
+	}
 	if !ok {
 		s := e.fc.last()
 		have, sn := 0, 0
